@@ -1,5 +1,5 @@
 (* C09 — basic lemmas: finite sums over index ranges, dot products against index functions, list surgery. *)
-From Coq Require Import ZArith List QArith Qcanon Bool Arith Lia Lra Lqa.
+From Coq Require Import ZArith List QArith Qcanon Bool Arith Lia Lqa.
 From SG Require Import Base.QcUtil Model.Trap.
 Import ListNotations.
 Open Scope Qc_scope.
